@@ -485,6 +485,16 @@ inline void enumerateDetailed(bool thorough, Mode mode, const std::function<void
       }
     });
   }
+  // (l) large family (120 and 400 cells): default parameters, and small shift windows
+  enumerateLarge([&](const Spec &s) {
+    Spec u = s;
+    u.aux = 0;
+    f0(u);
+    Spec w = u;
+    w.devs.push_back({F_shiftMaxNbCells, 20});
+    w.devs.push_back({F_reorderingMaxNbCells, 3});
+    f0(w);
+  });
   // (a) top level: base cross product + deviations
   Cfg a;
   a.rhs = {2};
